@@ -232,6 +232,25 @@ static void checkColumnRelation(Hist& h, const std::string& op, const Snap& cur,
     }
 }
 
+// Read-modify-write: copy a stored frame out, replace its points or its analogs on the copy, hand it back at the same index.
+bool Hist::opReadModifyWrite() {
+    size_t n = prev.frames.size(); if (n == 0) return false;
+    size_t i = rng.below(n); const SFrame& old = prev.frames[i]; if (old.empty()) return false;
+    bool replAnalogs = !old.subs.empty() && (old.pts.empty() || rng.chance(50));
+    if (!replAnalogs && old.pts.empty()) return false;
+    Frame f(obj->data().frame(i));                       // copy of the stored frame (shares nothing the library promises to keep private)
+    SFrame want = old;
+    if (replAnalogs) { Analogs an; want.subs.clear(); for (size_t s = 0; s < old.subs.size(); ++s) { SubFrame sf; std::vector<SChan> ws; for (size_t k = 0; k < old.subs[s].size(); ++k) { Channel c; c.name(old.subs[s][k].name); SChan w; w.name = old.subs[s][k].name; w.v = genFloatBits(rng, specialFloats); c.data(bitsf(w.v)); sf.channel(c); ws.push_back(w); } an.subframe(sf); want.subs.push_back(ws); } f.add(an); }
+    else { Points pts; want.pts.clear(); for (size_t k = 0; k < old.pts.size(); ++k) { SPoint ip; pts.point(mkPoint(*this, old.pts[k].name, &ip)); want.pts.push_back(ip); } f.add(pts); }
+    log.pre("frame"); Outcome oc; VF_TRY(oc, obj->frame(f, i));
+    std::string opn = replAnalogs ? "rmw_replace_analogs" : "rmw_replace_points";
+    log.ev(opn, "idx=" + std::to_string((unsigned long long)i) + " " + frameSig(want), oc); bump("op:" + opn);
+    checkC07Frame(opn, want, oc);
+    if (!oc.threw && !wild) { Snap cur = take(*obj); checkFrameRelation(opn, cur, i, false, want, i); }
+    afterMutator(opn, oc);
+    return true;
+}
+
 bool Hist::opDeclarePoint() {
     std::vector<std::string> labels = labelsOf(prev, "POINT");
     size_t n = prev.frames.size();
